@@ -1186,6 +1186,14 @@ async def _notify_subscribers(callbacks: Iterable[Awaitable[Any]]) -> None:
     for coro in asyncio.as_completed(callbacks):
         try:
             _ = await coro
+        except asyncio.CancelledError:
+            # Either this task is being cancelled, or a subscriber ended with
+            # a cancellation of its own (e.g. it awaited something that was
+            # cancelled). Only the former is passed on.
+            task = asyncio.current_task()
+            if task is None or task.cancelling():
+                raise
+            _LOGGER.exception("Subscriber was cancelled")
         except Exception:
             _LOGGER.exception("Exception from subscriber")
 
